@@ -84,7 +84,7 @@ def build(v):
         for a in t['attributes']:
             val = attr_value(a)
             if not a['enum'] and not a['base'].startswith('list:') and a['type'] in ('anyURI', 'string', 'None'):
-                val = u'urn:verif:two words/<a&b>"q"/\u00e9\u4e2d' if a['type'] == 'anyURI' else u' two  words <a&b> "q" \u00e9\u4e2d '
+                val = u'urn:verif:two words/<a&b>"q"/\u00e9\u4e2d/e\u0301\u212b' if a['type'] == 'anyURI' else u' two  words <a&b> "q" \u00e9\u4e2d e\u0301 \u212b '
             setattr(inst, a['member'], val)
     if kind == 'optattrs_empty':
         for a in t['attributes']:
